@@ -488,6 +488,7 @@ LEVEL_TEXT = ('Model-based generated histories (construct / call in three autogr
               'computed as the first call of a fresh interpreter. Thread interleavings are stressed with real thread pools, not '
               'enumerated.')
 LEVEL_TEXT += (' Also checked after every step: process-wide numerical switches unchanged, constructor arrays untouched (and free to be overwritten by the caller), coefficient lists unmodified, gradients equal to golden gradients; operations include thread stress on large inputs and construct-and-drop of any configuration.')
+LEVEL_TEXT += (' Round 10: twin pool entries built from custom pywt.Wavelet objects that share one name and differ in their filter banks.')
 LEVEL_NOTE = ('Exploration only: the harness does not own the thread schedule, so races that need a rare interleaving can be missed; '
               'goldens trust process isolation and bitwise-deterministic CPU kernels (mismatches up to 64 ulp of the largest value are counted, not failed).')
 TECHNIQUE = 'model-based / stateful property-based testing (Hypothesis operation sequences) against fresh-interpreter goldens'
